@@ -14,7 +14,7 @@ reg("C03", "event-log monitor of every node body + nested-loop (natural join) re
     "Random workflow graphs of 2-5 term nodes are run on the real engine; each node's multiset of job input terms and the workflow output (order included) must equal the reference; a known defect family is attributed per node by a structural predicate so other mismatches still fail.",
     "generator grammar: literal/own splitters, own-axis combiners, chains/fan-in/diamonds; reference vp/ref_wf.py from the statement")
 reg("C04", "depth-first element reference over real nested-container splits (outputs + body starts)",
-    "All nested structures of depth <=2 with inner lengths 0..2/3 and sampled depth-3 values, container_ndim 1..depth, alone and inside outer/inner splitters, run end to end; jobs/outputs must be the depth-n elements in DFS order.",
+    "All nested structures of depth <=2 with inner lengths 0..2/3 and sampled depth-3 values, container_ndim 1..depth, alone, inside outer/inner splitters and as a workflow node splitting over the nested output of a split upstream node (with and without a combiner that groups per upstream state), run end to end; jobs/outputs must be the depth-n elements in DFS order.",
     "values of uniform depth; MAY: inner pairing of a regular multi-dimensional value with a flat list")
 reg("C05", "differential monitor: two spellings of one splitter run on the real engine must give identical event logs and outputs; malformed requests must raise with zero body starts",
     "Pairs (tree, re-spelled tree) as plain task and as workflow node with an upstream state, plus 7 kinds of ill-formed requests; model-free equality / zero-start oracle; held on the pairs executed.",
@@ -32,7 +32,7 @@ reg("C17", "differential monitor across workers, process counts, limits and chos
     "Each generated workflow is run under debug, cf with 1/2/8 processes, concurrency limits and gated release orders in fresh caches; all outputs must be equal (and equal to the reference where it applies).",
     "configurations listed in evidence; schedule coverage = executed release orders")
 reg("C18", "lasso (repeated loop state) detectors hooked on DiGraph._sorting and on the sequential execution loop, plus an inconclusive-only wall-clock watchdog",
-    "Liveness restated as bounded progress: generated graphs with back-edges (self-loop, 2-cycle, long cycle, off-path cycle, typed/untyped, acyclic re-wiring) and an unstable-hash 'cannot progress' family are submitted to the real engine; every submission must end with outputs or an error, a repeated no-progress loop state is a violation with the state as witness.",
+    "Liveness restated as bounded progress: generated graphs with back-edges (self-loop, 2-cycle, long cycle, off-path cycle, an earlier node waiting for a cycle, typed/untyped, acyclic re-wiring) and an unstable-hash 'cannot progress' family are submitted to the real engine; every submission must end with outputs or an error, a repeated no-progress loop state is a violation with the state as witness, and so is a busy loop elsewhere (40 s of user CPU after imports with the main thread inside one pydra function on 10 consecutive stack samples).",
     "hangs outside the two monitored loops would surface as inconclusive (watchdog), not as violations")
 reg("C10", "multi-process stress with seeded delay injection (sys.monitoring LINE failpoints) at every statement of the job/cache protocol; exactly-once + payload-integrity oracle over the shared event log",
     "2-4 real submitter processes race on one task in a shared cache root (with/without an existing result, fast/slow body, debug/cf) while per-process seeded delays are injected between the critical sections; exactly one body start, every submitter gets the full payload (length + digest); the number of distinct cross-process checkpoint interleavings observed is reported.",
